@@ -14,6 +14,15 @@ BOUNDS_C01 = ('H-IND: one inductive step from every history/file state satisfyin
               'input list), Always outputs fresh per evaluation; every schedule, failure subset and abort point; an invariant failure is followed '
               'by a second, failure-free evaluation from the returned history and reported only if that produces a wrong result')
 
+BOUNDS_C19 = {
+    'quick': 'H-SIZE: chains, layered graphs (each job depends on two jobs of the previous layer) and fan-out/fan-in graphs; all 27 periodic kind '
+             'patterns of period 3 at 8-9 jobs; 600 jobs (chain 600, layers 20x30, fan 600) under 3-5 kind patterns each; cascade shapes: first build, '
+             'first build with root failure, abort after 1 start and midway, re-evaluation of the built project with the first/last Output result '
+             'symbolically deleted and the first Always / first re-executed job reporting a symbolic new value (covers up-to-date re-run and single '
+             'invalidation at either end), re-evaluation with root failure and with abort; sequential driver',
+    'thorough': 'quick + chain 4000 / 1500, layers 40x100 / 100x12, fan 4000',
+}
+
 BOUNDS_HEVAL = {
     'quick': 'all DAGs on <=3 jobs x all 3^N kind assignments under S-test (string inequality, real MIR of StrategyForTesting) '
              'and S-rel (comparison = arbitrary equivalence relation); 6 curated 4-job shapes under S-test; one evaluation from '
@@ -49,6 +58,8 @@ def sources_for(prop):
         return [('H-EVAL2', lambda G: True, None)]
     if prop == 'C01':
         return [('H-IND', lambda G: G['prop'] == 'C01', None)]
+    if prop == 'C19':
+        return [('H-SIZE', lambda G: G['prop'] == 'C19', None)]
     if prop == 'C15':
         # comparison-specific violations only: seen under S-rel / S-prod and not under string inequality
         rel_only = lambda G: 'ident' not in G.get('modes', [])
@@ -83,6 +94,8 @@ def run_property(prop, tier, seed, mod, bins, dt, log):
                 cprop = g['prop'] if reprop == 'group' else prop
                 if g['prop'] == 'C01':
                     ok, why, native = confirm_c01(mod, bins, exm)
+                elif g['prop'] == 'C19':
+                    ok, why, native = confirm_size(mod, bins, exm)
                 elif exm.get('chain'):
                     ok, why, native = confirm_chain(mod, bins, exm, g['prop'])
                 elif g['prop'] == 'C14':
@@ -98,7 +111,7 @@ def run_property(prop, tier, seed, mod, bins, dt, log):
                 path = os.path.join(outdir, 'cex-%d.json' % n)
                 rec_json = {'property': prop, 'what': exm['what'], 'group': gk, 'count_in_exploration': g['count'],
                             'scenario': exm['scenario'], 'path_condition': exm.get('pc'), 'native_trace': native, 'family': family}
-                for kx in ('scenario2', 'scenario3', 'chain', 'c01', 'kind'):
+                for kx in ('scenario2', 'scenario3', 'chain', 'c01', 'kind', 'orig_prop'):
                     if kx in exm:
                         rec_json[kx] = exm[kx]
                 json.dump(rec_json, open(path, 'w'), indent=1)
@@ -265,6 +278,43 @@ def confirm_c01(mod, bins, exm):
     return True, 'reproduced', native
 
 
+def confirm_size(mod, bins, exm):
+    """C19: the (up to two) evaluations replay natively exactly as predicted; the violation is re-established from the
+    native trace (an internal error / panic returned by a call) or, for the other oracles, by re-running the monitors on
+    the concrete scenario whose trace the real crate reproduced line by line"""
+    from . import size
+    if not exm.get('scenario'):
+        return False, 'no scenario', []
+    sc1 = S.Scenario.from_json(exm['scenario'])
+    n1, err = native_checked(mod, bins, sc1)
+    if n1 is None:
+        return False, err, []
+    native = [l[:400] for l in n1]
+    last_sc, last_n = sc1, n1
+    if exm.get('chain'):
+        sc2 = S.Scenario.from_json(exm['scenario2'])
+        h1 = {}
+        for l in n1:
+            f = l.split('\t')
+            if f[0] == 'H':
+                h1[S.unesc(f[1])] = S.unesc(f[2]) if len(f) > 2 else ''
+        if h1 != sc2.hist:
+            return False, 'history returned natively by the first evaluation is not the one predicted for the second', native[-5:]
+        n2, err = native_checked(mod, bins, sc2)
+        if n2 is None:
+            return False, err, native[-5:]
+        native = native[-3:] + ['--- next evaluation'] + [l[:400] for l in n2]
+        last_sc, last_n = sc2, n2
+    for l in last_n:
+        f = l.split('\t')
+        if f[0] == 'E' and len(f) > 3 and f[3].startswith(('err:InternalError', 'panic')):
+            return True, 'reproduced', native[-12:]
+    ex = X.run_script(mod, last_sc, size.monitors())
+    if any(v.prop == exm.get('orig_prop') for v in ex.violations):
+        return True, 'reproduced', native[-12:]
+    return False, 'claim not re-established on the concrete scenario', native[-12:]
+
+
 def confirm_pair(mod, bins, exm):
     """C14: both schedules replay natively exactly as predicted and their final outcomes differ on the real crate"""
     sc1 = S.Scenario.from_json(exm['scenario'])
@@ -347,7 +397,7 @@ def write_evidence(prop, tier, seed, out):
             'obligations_decided_by_pc_literal_evaluation': res['by_eval'],
             'solver': res['solver'], 'mir_blocks_executed': res['mir_blocks'],
             'per_family': res['per_family'], 'monitor_stats': res['mon_stats'],
-            'bounds': BOUNDS_C01 if prop == 'C01' else BOUNDS_HEVAL[tier],
+            'bounds': BOUNDS_C01 if prop == 'C01' else (BOUNDS_C19[tier] if prop == 'C19' else BOUNDS_HEVAL[tier]),
             'outside_the_claim': 'graphs with more than 3 jobs except the curated 4-job shapes; chains of evaluations other than through '
                                  'the one-step history invariant; hash iteration order; the python driver',
             'difftest': {'chains': dt['chains'], 'scenarios': dt['scenarios'], 'events': dt['events'], 'mismatches': len(dt['mismatches'])},
